@@ -316,11 +316,14 @@ def exec_single(case):
             mine = mon.writes[writes_seen[0]:]
             writes_seen[0] = len(mon.writes)
             wrote_seqs = set()
+            wrote_versions = set()
             for wv in mine:
                 for shnum, (testv, writev, newlen) in wv["tw"].items():
                     for (woff, wdata) in writev:
                         if woff == 0 and len(wdata) >= 9 and wdata[0] in (0, 1):
                             wrote_seqs.add(struct.unpack(">Q", wdata[1:9])[0])
+                            if len(wdata) >= 41:
+                                wrote_versions.add(share_version(wdata))
             if st == "ok" and not mine:
                 # success without any write on the wire (e.g. a zero-length update): nothing was published, so C47 has
                 # nothing to say; the contents are still checked by the read-back (C09)
@@ -333,8 +336,9 @@ def exec_single(case):
                     newest = max(vers, key=lambda v: v[1])
                     if wrote_seqs:
                         # the version this operation published, not a higher-numbered leftover of an earlier failed write
-                        cands = [v for v in vers if v[1] == max(wrote_seqs)]
-                        newest = cands[0] if cands else (None, max(wrote_seqs), None)
+                        # (told apart by root hash as well: a failed earlier write may have left shares with the same number)
+                        cands = [v for v in vers if v[1] == max(wrote_seqs) and (not wrote_versions or v in wrote_versions)]
+                        newest = max(cands, key=lambda v: len(vers[v])) if cands else (None, max(wrote_seqs), None)
                     have = len(vers.get(newest, ()))
                     if newest[1] <= last_seq and (isinstance(model_before, tuple) or bytes(model_before or b"") != bytes(new_model)):
                         bad("C11", "seqnum-not-increased", "%s succeeded but the highest sequence number on disk is %d (was %d)" % (what, newest[1], last_seq))
